@@ -72,7 +72,8 @@ def build(ctx, tier, seed):
         f = byname[a['fmt']]
         maxv = ev[f.sentinel]
         good = sorted(set([0, 1, maxv - 1, rng.randint(0, maxv - 1)]))
-        bad = bad_ids(maxv, rng, 'quick')[:14]
+        allbad = bad_ids(maxv, rng, 'quick')
+        bad = allbad[:8] + allbad[-8:]        # the smallest invalid identifiers and the largest (>= 2^31: negative as int)
         b = rng.bytes(f.hdr + 2); hb = F.hexbuf(b)
         for i in good + bad:
             for pdu in ('-', hb):
